@@ -53,6 +53,46 @@ CHECKS = {
         "iterations goes without a dispatch, and over saturated spans higher levels get at least as many turns. Binding as C08 with "
         "saturating workloads (self re-adding jobs, always-ready descriptors, zero-delay timers at all three priorities, 20-45 iterations).",
    note=loopnote, technique=looptech, design_ref="DESIGN.md section 4, C10"),
+ "C12": dict(
+   text="spec/LogRoute.tla specifies log routing as the pure selection function of a target's filters over call-site attributes (priority "
+        "window plus exact / comma-list / substring / POSIX-basic-regex subset / '*' matching) next to the mechanism the code keeps (per-call-site "
+        "target bitmap and tag word, stored rules replayed onto new call sites). TLC checks exhaustively for bounded constants that delivery <=> "
+        "enabled and selected holds for already-executed and not-yet-executed call sites alike (twins), likewise for tags, and that a closed slot is "
+        "empty. Binding: every model history up to a fixed depth over an aliasing universe plus random walks over four larger universes run on the "
+        "real qb_log_* API with custom targets; each history ends with an enable-everything, log-everything probe; TLC validates every return code "
+        "and every logger-callback invocation (target, tag, call-site attributes, exactly once) against the same specification.",
+   note="Bounded constants; custom dynamic targets only; well-formed filter texts and the regex subset; single-threaded; TLC, ASan/UBSan and the h_log.c projection are trusted.",
+   technique="TLA+ model checking (TLC) + model-generated histories replayed on the C code + TLC trace validation",
+   design_ref="DESIGN.md section 4, C12"),
+ "C13": dict(
+   text="spec/LogFormat.tla states the required line at token level (concatenation of padded/chopped fields, truncation to limit-1, ellipsis only "
+        "on truncation, NUL inside the limit, message delivery with newline and extended-marker handling). TLC checks a token-level transcription of "
+        "the formatter against it for every vector of a boundary alphabet (LogFormatMC). The same alphabets (all 14 directive kinds; widths and lengths "
+        "0, 1, limit-1, limit, limit+5; limits 1..16, 32, 255..257, 512, 513, 4096, 4097) are executed on the real qb_log_ctl / qb_log_format_set / "
+        "qb_log_target_format / qb_log_from_external_source under ASan with an exact-size buffer, and every result is validated by TLC (LogFormatTrace).",
+   note="One byte value per field; unknown or unfinished directives and priorities above TRACE are checked for bounds only; a right-flushed field cut by the limit admits two texts; sanitizers, TLC and the harness projection are trusted.",
+   technique="TLA+ model checking (TLC) of a token-level transcription + model-generated vectors executed on the C code + TLC trace validation + sanitizer monitor",
+   design_ref="DESIGN.md section 4, C13"),
+ "C14": dict(
+   text="spec/BbCodec.tla gives the directive grammar as a token automaton shared by the blackbox encoder and decoder, the required slot list per "
+        "directive and the space invariants. TLC proves for every token sequence of length <= 3 that encoder and decoder agree on slots, keep the "
+        "record contract and stay in bounds. Every format shape of length <= 2 (thorough: <= 3) and random walks to length 8 are run on the real "
+        "qb_vsnprintf_serialize / deserialize and on the full blackbox path under ASan/UBSan with reservations at and around the record size and decoder "
+        "buffers of 1, 8, 512 and exact fit; TLC validates the return value against the slot contract, the decoder's read extent against the record "
+        "length, and the decoded text against libc vsnprintf whenever it fits (the property names printf as the reference).",
+   note="x86-64 SysV ABI; glibc vsnprintf is the reference text; length modifiers l ll z t j; excluded: h hh L, %lc, %ls, %n, NULL with precision; sanitizers, TLC and the harness projection trusted.",
+   technique="TLA+ model checking (TLC) of encoder/decoder automata + model-generated format shapes executed on the C code + TLC trace validation (printf text as reference) + sanitizer monitor",
+   design_ref="DESIGN.md section 4, C14"),
+ "C19": dict(
+   text="spec/Array.tla states the caller-visible contract (range errors, stable and pairwise-distinct element addresses at least one element apart, "
+        "zero until written, contents kept across growth) and the locking discipline (the bin table is read or replaced only by the holder of the grow "
+        "lock). spec/ArrayMC.tla model-checks all interleavings of three threads at lock granularity: with the discipline no thread reads a freed table; "
+        "the as-found variant (table read after unlock) yields the counterexample. Binding: model histories (exhaustive short + long walks, six creation "
+        "profiles, indices over the full range) run on the real qb_array_* under ASan; every result and every LOCKED/UNLOCK/TABLE_READ/TABLE_WRITE hook "
+        "event is validated by TLC (ArrayTrace.tla), so an access outside the lock is rejected on any execution, whatever the schedule.",
+   note="Concurrency is decided through the locking discipline (hooks in lib/array.c) plus the thread-level model, not by executing racing threads; creation profiles and index sets are fixed lists.",
+   technique="TLA+ model checking (TLC, thread interleavings) + model-generated histories replayed on the C code + TLC trace validation of results and lock-discipline hook events",
+   design_ref="DESIGN.md section 4, C19"),
  "C17": dict(
    text="spec/Map.tla specifies the three map implementations as a dictionary with map-wide, per-key, recursive-prefix and "
         "value-release notifiers (per-implementation profile as a constant); TLC checks its invariants exhaustively for bounded "
@@ -113,4 +153,4 @@ def manifest():
     }
 
 NOT_APPLICABLE = {}
-HOOK_COMMITS = []
+HOOK_COMMITS = ["6403eeb", "060055a"]
